@@ -155,6 +155,28 @@ def pat_partial_topdown_before_bu(case, io):
     return False
 
 
+def pat_aborted_bu_and_failing_checker(case, io):
+    """K8: the history contains a bottom-up build that aborted, and some task reads with a checker whose check can fail
+    (harness ids 10-29)"""
+    if not any(_re.search(r"\b(read|write|wrote) \d+ [12]\d\b", l) for l in case.body if l.startswith("task ")):
+        return False
+    in_bu = False
+    for l in io:
+        if l.startswith("op bu"): in_bu = True
+        elif l.startswith("op "): in_bu = False
+        elif in_bu and l.startswith("abort "): return True
+    return False
+
+
+def known_any(*matchers):
+    def km(case, io, mo):
+        for m in matchers:
+            r = m(case, io, mo)
+            if r: return r
+        return None
+    return km
+
+
 def known_if_model_agrees(fid, oracle, pattern=None):
     """pattern of a known finding: the oracle fails on the implementation AND on the model's own output for the same
     case (the finding is a property of the algorithm as modelled, not a deviation of the code from the model)."""
@@ -203,7 +225,8 @@ PROPS.update({
     "C01": mk("C01", st(td=4, tdx=2, bu=1, buc=1, failtd=2, panotd=2, panrtd=1), 3000, 30000,
               proj_lines(("op ", "out ", "abort ", "done", "skipped", "fs ", "cl ", "known ", "bad-op")), c01_oracle, [],
               proj_name="C01: returned outputs, abort kinds, resource contents, reference builds",
-              known_match=known_if_model_agrees("K5", c01_oracle, pat_failing_stamper)),
+              known_match=known_any(known_if_model_agrees("K5", c01_oracle, pat_failing_stamper),
+                                    known_if_model_agrees("K8", c01_oracle, pat_aborted_bu_and_failing_checker))),
     "C02": mk("C02", st(td=3, tdx=3, buc=1, pan=2, pano=1, panr=2, fail=1, bu=1, hid=1, ovl=1, cyc=1, rol=1), 3000, 30000,
               proj_lines(("op ", "ev execute_start", "ev check_", "out ", "abort ", "cl exec", "bad-op")),
               lambda c, io: OB.c02(c, io, exact=c.meta.get("exact", False),
